@@ -104,3 +104,73 @@ func VerifH_C20_reqstep() {
 	vCover("C20.reqstep.connection", !ok && len(name) == 10 && name[0] == 'c' && !s.regular)
 	vCover("C20.reqstep.cl", ok && n.hasCL && n.cl == 123)
 }
+
+// The end of the request header block: a HEADERS frame with END_HEADERS on a
+// stream with arbitrary pseudo-header bookkeeping and an arbitrary :path of
+// 0..2 bytes is accepted exactly when :method, :scheme and a non-empty :path
+// have been seen (RFC 7540 8.1.2.3); otherwise the stream alone is refused
+// with PROTOCOL_ERROR.
+//
+//verif:harness prop=C20 unwind=16
+func VerifH_C20_reqend() {
+	sc := vNewServerConn()
+	sc.maxHeaderList = -1
+	strm := &Stream{id: 1, state: StreamStateOpen, window: 65535}
+	strm.ctx = &fasthttp.RequestCtx{}
+	strm.pseudoMethod, strm.pseudoScheme, strm.pseudoPath, strm.pseudoAuthority = vBool(), vBool(), vBool(), vBool()
+	strm.regularSeen = vBool()
+	strm.path = vBytes(vRange(0, 2))
+	vAssume(strm.pseudoPath || len(strm.path) == 0)
+	strm.scheme = []byte("https")
+	fr := AcquireFrameHeader()
+	h := AcquireFrame(FrameHeaders).(*Headers)
+	h.SetEndHeaders(true)
+	fr.SetBody(h)
+	fr.SetStream(1)
+	fr.flags = fr.flags.Add(FlagEndHeaders)
+	if vBool() {
+		fr.flags = fr.flags.Add(FlagEndStream)
+		h.SetEndStream(true)
+	}
+
+	err := sc.handleFrame(strm, fr)
+
+	ok := strm.pseudoMethod && strm.pseudoScheme && strm.pseudoPath && len(strm.path) > 0
+	vAssert((err == nil) == ok, "C20.reqend.accept")
+	if err != nil {
+		e, isH2 := err.(Error)
+		vAssert(isH2 && e.Code() == ProtocolError && e.frameType == FrameResetStream, "C20.reqend.stream-error")
+	} else {
+		vAssert(strm.headersFinished, "C20.reqend.headers-finished")
+	}
+	vCover("C20.reqend.ok", err == nil)
+	vCover("C20.reqend.empty-path", err != nil && strm.pseudoMethod && strm.pseudoScheme && strm.pseudoPath)
+}
+
+// parseUint (content-length, :status) on every string of 1..20 bytes: the
+// decimal value when the string is all digits and the value fits an int,
+// an error otherwise - never a wrapped value.
+//
+//verif:harness prop=C20 unwind=30
+func VerifH_C20_uint() {
+	b := vBytes(vRange(0, 20))
+	digits := len(b) > 0
+	over := false
+	var v uint64
+	const max = uint64(1)<<63 - 1
+	for _, c := range b {
+		d := vAnd(c >= '0', c <= '9')
+		digits = vAnd(digits, d)
+		dv := uint64(c - '0')
+		over = vOr(over, vOr(v > max/10, v*10 > max-dv))
+		v = v*10 + dv
+	}
+	n, err := parseUint(b)
+	if digits && !over {
+		vAssert(err == nil && uint64(n) == v, "C20.uint.value")
+	} else {
+		vAssert(err != nil, "C20.uint.rejects")
+	}
+	vCover("C20.uint.19digits", digits && !over && len(b) == 19)
+	vCover("C20.uint.overflow", digits && over)
+}
